@@ -1,4 +1,4 @@
 SPECIFICATION Spec
-CONSTANTS Groups = 16 NameLen2 = 12 NameLen4 = 6 Chunk = 4096 T3Dense = 131071
+CONSTANTS Groups = 16 NameLen2 = 12 NameLen4 = 6 Chunk = 4096 T3Dense = 131071 AmbrAllPairs = FALSE
 INVARIANT Laws
 CHECK_DEADLOCK FALSE
